@@ -32,7 +32,7 @@ func (fe *FnExec) invsOf(pointee types.Type) []Clause {
 func (fe *FnExec) objOf(v Val) (PtrV, bool) {
 	switch x := v.(type) {
 	case PtrV:
-		if x.Cell == nil && x.ElemOf == nil && len(fe.invsOf(x.Pointee)) > 0 {
+		if x.Cell == nil && x.ElemOf == nil && !x.Interior && len(fe.invsOf(x.Pointee)) > 0 {
 			return x, true
 		}
 	case RefV:
@@ -120,7 +120,7 @@ type invCase struct {
 // invCases enumerates the object-invariant instances that apply to value v of
 // static type t: the object itself when its type is known, otherwise one case
 // per in-repo type with invariants that could be its dynamic type.
-func (fe *FnExec) invCases(v Val, t types.Type) []invCase {
+func (fe *FnExec) invCases(v Val, t types.Type, oblige bool) []invCase {
 	if obj, ok := fe.objOf(v); ok {
 		if obj.Base == "0" {
 			return nil
@@ -138,9 +138,10 @@ func (fe *FnExec) invCases(v Val, t types.Type) []invCase {
 	if _, known := fe.ifaceType[rv.T]; known {
 		return nil // boxed pointer of a type without invariants
 	}
-	if !fe.owned[rv.T] {
+	if oblige && !fe.owned[rv.T] {
 		// an object of unknown dynamic type that this function did not create: its
-		// invariant is the business of whoever created it
+		// invariant is the business of whoever created it (no obligation); after a
+		// call it may still be assumed, since every method preserves it
 		return nil
 	}
 	var out []invCase
@@ -153,7 +154,10 @@ func (fe *FnExec) invCases(v Val, t types.Type) []invCase {
 		if !types.Implements(pt, iface) {
 			continue
 		}
-		cond := tAnd(sx("<", "HW", rv.T), tEq(sx("dyn", rv.T), tInt(int64(fe.tid(pt)))))
+		cond := tAnd(tNot(tEq(rv.T, "0")), tEq(sx("dyn", rv.T), tInt(int64(fe.tid(pt)))))
+		if oblige {
+			cond = tAnd(sx("<", "HW", rv.T), cond)
+		}
 		out = append(out, invCase{cond, PtrV{Base: rv.T, Prefix: typeName(T), Pointee: T}})
 	}
 	return out
@@ -167,7 +171,7 @@ func (fe *FnExec) preCallInv(fr *frame, st *State, site string, full []Val, type
 		if i < len(types_) {
 			t = types_[i]
 		}
-		for _, c := range fe.invCases(a, t) {
+		for _, c := range fe.invCases(a, t, true) {
 			for _, inv := range fe.invsOf(c.obj.Pointee) {
 				if fr.entry != nil && !strings.HasPrefix(strings.TrimPrefix(c.obj.Base, "|"), "obj.") {
 					g0 := fe.invCtx(fr.entry, c.obj).evalBool(inv.X)
@@ -186,7 +190,7 @@ func (fe *FnExec) reestablishArgs(st *State, full []Val, types_ []types.Type) {
 		if i < len(types_) {
 			t = types_[i]
 		}
-		for _, c := range fe.invCases(a, t) {
+		for _, c := range fe.invCases(a, t, false) {
 			stt, ok := c.obj.Pointee.Underlying().(*types.Struct)
 			if !ok {
 				continue
@@ -209,7 +213,7 @@ func (fe *FnExec) assumeResultInv(st *State, v Val, t types.Type) {
 	if rv, ok := v.(RefV); ok {
 		fe.owned[rv.T] = true
 	}
-	for _, c := range fe.invCases(v, t) {
+	for _, c := range fe.invCases(v, t, false) {
 		for _, inv := range fe.invsOf(c.obj.Pointee) {
 			g := fe.invCtx(st, c.obj).evalBool(inv.X)
 			fe.assume(tImp(tAnd(st.pc, c.cond), g), "object invariant "+inv.Label+" of a constructor result")
